@@ -37,6 +37,16 @@ def one(src, pat, what, flags=0, count=1):
     return ms[0] if count == 1 else ms
 
 
+def soft(src, pat, what, flags=0):
+    """like one(), but a pattern that no longer matches is not fatal: used only for the constants of the guards at the
+    end of get_caller_frame, which Gen/UnwindTail.v re-emits operator by operator.  The caller then emits a value that
+    no architecture description may have (arch_ok fails), so the edit breaks the theorems instead of stopping the run."""
+    ms = list(re.finditer(pat, src, flags))
+    if len(ms) > 1:
+        die("%s: pattern %r matched %d times" % (what, pat, len(ms)))
+    return ms[0] if ms else None
+
+
 def intlit(s):
     s = s.strip().replace("_", "")
     if re.fullmatch(r"0x[0-9a-fA-F]+", s):
@@ -57,6 +67,401 @@ def strlist(s, what):
     return out
 
 
+
+# ======================================================================================
+# Guard-expression translator (round 5): the end of every <arch>::get_caller_frame (from
+# `let mut frame = frame?;` to the closing `Some(frame)`) and the stop guard of lib.rs
+# walk_stack are parsed (a small statement / expression subset of Rust) and re-emitted as
+# Gallina in Gen/UnwindTail.v.  Theorems of C05/Properties.v are stated about exactly these
+# generated definitions, so an edited comparison, constant, conjunct or a dropped / reordered
+# statement changes the definition the theorems are checked against.  Anything outside the
+# subset aborts the run (exit 2).
+TOKEN = re.compile(r'(//[^\n]*)|("(?:[^"\\]|\\.)*")|(0x[0-9a-fA-F_]+|\d[\d_]*)|([A-Za-z_][A-Za-z0-9_]*!?)'
+                   r'|(::|==|!=|<=|>=|&&|\|\||[-+*/%<>!=(){};.,&|^\[\]?:])')
+
+
+def tokenize(text, what):
+    toks, i = [], 0
+    while i < len(text):
+        if text[i].isspace():
+            i += 1
+            continue
+        m = TOKEN.match(text, i)
+        if not m:
+            die("%s: cannot tokenize at %r" % (what, text[i:i + 30]))
+        i = m.end()
+        if m.group(1) is None:
+            toks.append(m.group(0))
+    return toks
+
+
+INT_TYPES = {"u32": 32, "u64": 64}
+CMP = {"<": "<?", "<=": "<=?", ">": ">?", ">=": ">=?", "==": "=?"}
+
+
+class TailParser:
+    """statements: if E { .. } | let x = E; | trace!(..); | return None; | break; | frame.instruction = E; | Some(frame)
+       expressions: || && comparisons + - `as uN` ! ( ) integer literals and the operands listed in [atoms]"""
+
+    def __init__(self, toks, atoms, what, first_tag):
+        self.t, self.i, self.what = toks, 0, what
+        self.atoms = atoms
+        self.tags = {}          # token position of an arithmetic operator -> panic-site tag
+        self.next_tag = first_tag
+        self.used = set(v[0] for v in atoms.values())
+        self.in_lazy = 0
+
+    def die(self, msg):
+        die("%s: %s (at `%s`)" % (self.what, msg, " ".join(self.t[self.i:self.i + 8])))
+
+    def peek(self, k=0):
+        return self.t[self.i + k] if self.i + k < len(self.t) else None
+
+    def eat(self, tok=None):
+        x = self.peek()
+        if x is None or (tok is not None and x != tok):
+            self.die("expected %r" % tok)
+        self.i += 1
+        return x
+
+    def balanced(self):
+        """raw text of a parenthesised group starting at '('"""
+        depth, out = 0, []
+        while True:
+            x = self.eat()
+            out.append(x)
+            if x == "(":
+                depth += 1
+            elif x == ")":
+                depth -= 1
+                if depth == 0:
+                    return "".join(out)
+
+    # ---- expressions: return (pre, term, type); pre = [(name, rhs)] monadic bindings to run first
+    def primary(self, env):
+        x = self.peek()
+        if x is None:
+            self.die("expression expected")
+        if re.fullmatch(r"0x[0-9a-fA-F_]+|\d[\d_]*", x):
+            self.eat()
+            return [], str(intlit(x)), "lit"
+        if x == "(":
+            self.eat("(")
+            r = self.expr(env)
+            self.eat(")")
+            return r[0], "(%s)" % r[1], r[2]
+        if not re.fullmatch(r"[A-Za-z_][A-Za-z0-9_]*", x):
+            self.die("operand expected")
+        canon = self.eat()
+        while self.peek() in (".", "::", "("):
+            if self.peek() == "(":
+                canon += self.balanced()
+            else:
+                canon += self.eat()
+                if self.peek() == "<":                     # turbofish
+                    canon += self.eat("<") + self.eat() + self.eat(">")
+                else:
+                    y = self.eat()
+                    if not re.fullmatch(r"[A-Za-z_][A-Za-z0-9_]*", y):
+                        self.die("path segment expected")
+                    canon += y
+        if canon in env:
+            return [], env[canon][0], env[canon][1]
+        if canon in self.atoms:
+            return [], self.atoms[canon][0], self.atoms[canon][1]
+        die("%s: operand `%s` is not one the model has a meaning for" % (self.what, canon))
+
+    def unary(self, env):
+        if self.peek() == "!":
+            self.eat()
+            pre, t, ty = self.unary(env)
+            if ty != "bool":
+                self.die("`!` on a non-boolean")
+            return pre, "(negb %s)" % t, "bool"
+        if self.peek() in ("-", "*", "&"):
+            self.die("unary `%s` not modelled" % self.peek())
+        return self.primary(env)
+
+    def cast(self, env):
+        pre, t, ty = self.unary(env)
+        while self.peek() == "as":
+            self.eat()
+            to = self.eat()
+            if to not in INT_TYPES:
+                self.die("cast to %s not modelled" % to)
+            if ty == "lit" or ty == to or (ty in INT_TYPES and INT_TYPES[ty] < INT_TYPES[to]):
+                ty = to                                     # widening / no-op cast: the value is unchanged
+            else:
+                self.die("narrowing cast %s as %s not modelled" % (ty, to))
+        return pre, t, ty
+
+    def unify(self, a, b):
+        if a == "lit" and b in INT_TYPES:
+            return b
+        if b == "lit" and a in INT_TYPES:
+            return a
+        if a == b and a in INT_TYPES:
+            return a
+        self.die("operand types %s / %s do not match" % (a, b))
+
+    def additive(self, env):
+        pre, t, ty = self.cast(env)
+        while self.peek() in ("+", "-"):
+            pos = self.i
+            op = self.eat()
+            pre2, t2, ty2 = self.cast(env)
+            rty = self.unify(ty, ty2)
+            if self.in_lazy:
+                self.die("arithmetic on the right of && / || not modelled")
+            if pos not in self.tags:
+                self.tags[pos] = self.next_tag
+                self.next_tag += 1
+            tag = self.tags[pos]
+            name = "t%d" % tag
+            pre = pre + pre2 + [(name, "%s p %d %d %s %s" % ("chk_add" if op == "+" else "chk_sub", INT_TYPES[rty], tag, t, t2))]
+            t, ty = name, rty
+        if self.peek() in ("*", "/", "%", "&", "|", "^"):
+            self.die("operator `%s` not modelled" % self.peek())
+        return pre, t, ty
+
+    def comparison(self, env):
+        pre, t, ty = self.additive(env)
+        if self.peek() in ("<", "<=", ">", ">=", "==", "!="):
+            op = self.eat()
+            pre2, t2, ty2 = self.additive(env)
+            pre = pre + pre2
+            if "trust" in (ty, ty2) or "trustconst" in (ty, ty2):
+                if sorted((ty, ty2)) != ["trust", "trustconst"] or op not in ("==", "!="):
+                    self.die("comparison of frame trusts not modelled")
+                const = t2 if ty2 == "trustconst" else t
+                if const != "Context":
+                    self.die("only FrameTrust::Context has a meaning in the model of the guards")
+                return pre, "callee_is_context" if op == "==" else "(negb callee_is_context)", "bool"
+            self.unify(ty, ty2)
+            if op == "!=":
+                return pre, "(negb (%s =? %s))" % (t, t2), "bool"
+            return pre, "(%s %s %s)" % (t, CMP[op], t2), "bool"
+        return pre, t, ty
+
+    def conj(self, env):
+        pre, t, ty = self.comparison(env)
+        while self.peek() == "&&":
+            self.eat()
+            self.in_lazy += 1
+            pre2, t2, ty2 = self.comparison(env)
+            self.in_lazy -= 1
+            if ty != "bool" or ty2 != "bool" or pre2:
+                self.die("&& on non-booleans")
+            t, ty = "(%s && %s)" % (t, t2), "bool"
+        return pre, t, ty
+
+    def expr(self, env):
+        pre, t, ty = self.conj(env)
+        while self.peek() == "||":
+            self.eat()
+            self.in_lazy += 1
+            pre2, t2, ty2 = self.conj(env)
+            self.in_lazy -= 1
+            if ty != "bool" or ty2 != "bool" or pre2:
+                self.die("|| on non-booleans")
+            t, ty = "(%s || %s)" % (t, t2), "bool"
+        return pre, t, ty
+
+    # ---- statements
+    def fresh(self, name):
+        n, k = "l_" + name, 1
+        while n in self.used:
+            k += 1
+            n = "l_%s_%d" % (name, k)
+        self.used.add(n)
+        return n
+
+    def block(self, env, closing):
+        env = dict(env)
+        out = []
+        while self.peek() != closing:
+            x = self.peek()
+            if x is None:
+                self.die("unexpected end of the guarded region")
+            if x == "if":
+                self.eat()
+                if self.peek() == "let":
+                    self.die("`if let` not modelled")
+                c = self.expr(env)
+                if c[2] != "bool":
+                    self.die("condition is not boolean")
+                self.eat("{")
+                body = self.block(env, "}")
+                self.eat("}")
+                if self.peek() == "else":
+                    self.die("`else` not modelled")
+                out.append(("if", c, body))
+            elif x == "let":
+                self.eat()
+                name = self.eat()
+                if name == "mut" or not re.fullmatch(r"[a-z_][a-z0-9_]*", name):
+                    self.die("`let %s` not modelled" % name)
+                self.eat("=")
+                e = self.expr(env)
+                self.eat(";")
+                g = self.fresh(name)
+                out.append(("let", g, e))
+                env[name] = (g, e[2])
+            elif x == "trace!":
+                self.eat()
+                self.balanced()
+                self.eat(";")
+            elif x == "return":
+                self.eat()
+                self.eat("None")
+                self.eat(";")
+                out.append(("stop",))
+            elif x == "break":
+                self.eat()
+                self.eat(";")
+                out.append(("stop",))
+            elif x == "frame" and self.peek(1) == "." and self.peek(2) == "instruction" and self.peek(3) == "=":
+                self.i += 4
+                e = self.expr(env)
+                if e[2] != "u64":
+                    self.die("frame.instruction must be assigned a u64")
+                self.eat(";")
+                out.append(("instr", e))
+            elif x == "Some" and self.t[self.i:self.i + 4] == ["Some", "(", "frame", ")"]:
+                self.i += 4
+                out.append(("some",))
+                if self.peek() != closing:
+                    self.die("code after Some(frame)")
+            else:
+                self.die("statement not modelled")
+        return out
+
+
+def binds(pre, ind):
+    return "".join("%sdo %s <- %s;\n" % (ind, n, rhs) for n, rhs in pre)
+
+
+def gen_tail(stmts, instr, ind, what):
+    """continuation-passing rendering: `if c { body }; rest` = if c then [body; rest] else [rest]"""
+    if not stmts:
+        die("%s: the guarded region can end without `Some(frame)` or `return None`" % what)
+    s, rest = stmts[0], stmts[1:]
+    if s[0] == "stop":
+        return ind + "Ret None"
+    if s[0] == "some":
+        return ind + "Ret (Some %s)" % instr
+    if s[0] == "let":
+        pre, t, _ = s[2]
+        return binds(pre, ind) + "%slet %s := %s in\n" % (ind, s[1], t) + gen_tail(rest, instr, ind, what)
+    if s[0] == "instr":
+        pre, t, _ = s[1]
+        return binds(pre, ind) + gen_tail(rest, t, ind, what)
+    if s[0] == "if":
+        pre, t, _ = s[1]
+        return (binds(pre, ind) + "%sif %s then (\n" % (ind, t) + gen_tail(s[2] + rest, instr, ind + "  ", what) + "\n%s) else (\n" % ind
+                + gen_tail(rest, instr, ind + "  ", what) + "\n%s)" % ind)
+    die("%s: internal: %r" % (what, s))
+
+
+def gen_stop(stmts, ind, what):
+    """walk_stack's stop guard: true = leave the loop before asking for a caller"""
+    if not stmts:
+        return ind + "false"
+    s, rest = stmts[0], stmts[1:]
+    if s[0] == "stop":
+        return ind + "true"
+    if s[0] == "let":
+        pre, t, _ = s[2]
+        if pre:
+            die("%s: arithmetic in the stop guard not modelled" % what)
+        return "%slet %s := %s in\n" % (ind, s[1], t) + gen_stop(rest, ind, what)
+    if s[0] == "if":
+        pre, t, _ = s[1]
+        if pre:
+            die("%s: arithmetic in the stop guard not modelled" % what)
+        return "%sif %s then (\n" % (ind, t) + gen_stop(s[2] + rest, ind + "  ", what) + "\n%s) else (\n" % ind + gen_stop(rest, ind + "  ", what) + "\n%s)" % ind
+    die("%s: statement %s not modelled in the stop guard" % (what, s[0]))
+
+
+def tail_definitions(src, fmt, regw):
+    """-> text of Gen/UnwindTail.v"""
+    out = []
+    # field types of the raw contexts the guards read directly
+    one(fmt, r"pub struct CONTEXT_X86 \{(?:[^}]*?)\n\s*pub esp: u32,", "CONTEXT_X86.esp : u32", re.S)
+    one(fmt, r"pub struct CONTEXT_AMD64 \{(?:[^}]*?)\n\s*pub rsp: u64,", "CONTEXT_AMD64.rsp : u64", re.S)
+    common = {
+        "frame.context.get_instruction_pointer()": ("caller_ip", "u64"),
+        "frame.context.get_stack_pointer()": ("caller_sp", "u64"),
+        "args.callee_frame.trust": ("callee_trust", "trust"),
+        "FrameTrust::Context": ("Context", "trustconst"),
+    }
+    for v in ("Scan", "CfiScan", "FramePointer", "CallFrameInfo", "PreWalked", "None"):
+        common["FrameTrust::" + v] = (v, "trustconst")
+    per = {
+        "x86": {"ctx.esp": ("callee_sp", "u32")},
+        "amd64": {"ctx.rsp": ("callee_sp", "u64")},
+        "arm": {'ctx.get_register_always("sp")': ("callee_sp", "u%d" % regw["arm"]),
+                "ctx.get_register_always(STACK_POINTER)": ("callee_sp", "u%d" % regw["arm"])},
+        "arm64": {'ctx.get_register_always("sp")': ("callee_sp", "u%d" % regw["arm64"]),
+                  "ctx.get_register_always(STACK_POINTER)": ("callee_sp", "u%d" % regw["arm64"])},
+        "mips": {'ctx.get_register_always("sp")': ("callee_sp", "u%d" % regw["mips"]),
+                 "ctx.get_register_always(STACK_POINTER)": ("callee_sp", "u%d" % regw["mips"])},
+    }
+    for key in ("x86", "amd64", "arm", "arm64", "mips"):
+        s = src[key]
+        m = one(s, r"\n    let mut frame = frame\?;\n(.*?)\n\}\n", key + " end of get_caller_frame", re.S)
+        what = key + ".rs get_caller_frame (after `let mut frame = frame?;`)"
+        atoms = dict(common)
+        atoms.update(per[key])
+        ps = TailParser(tokenize(m.group(1), what), atoms, what, 550)
+        stmts = ps.block({}, None)
+        if not stmts or stmts[-1] != ("some",):
+            die(what + ": does not end with Some(frame)")
+        out.append("(* %s.rs: the checks between `let mut frame = frame?;` and `Some(frame)` of get_caller_frame.\n"
+                   "   callee_is_context = (args.callee_frame.trust == FrameTrust::Context), callee_sp = the callee context's stack\n"
+                   "   pointer, caller_ip / caller_sp = frame.context.get_instruction_pointer() / get_stack_pointer();\n"
+                   "   result: Ret None = `return None`, Ret (Some i) = Some(frame) with frame.instruction = i *)\n"
+                   "Definition %s_gcf_tail (p : profile) (callee_is_context : bool) (callee_sp caller_ip caller_sp : Z) : outcome (option Z) :=\n%s.\n"
+                   % (key, key, gen_tail(stmts, "caller_ip", "  ", what)))
+    # ---- lib.rs walk_stack: what happens between picking the callee frame and asking for its caller
+    what = "lib.rs walk_stack (between `let callee_frame = ..` and `let grand_callee_frame = ..`)"
+    m = one(src["lib"], r"\n        let callee_frame = &stack\.frames\.last\(\)\.unwrap\(\);\n(.*?)\n        let grand_callee_frame = stack\n", what, re.S)
+    atoms = {
+        "callee_frame.trust": ("callee_trust", "trust"),
+        "FrameTrust::Context": ("Context", "trustconst"),
+        "stack_memory.get_memory_at_address::<u8>(callee_frame.context.get_stack_pointer()).is_none()": ("(negb sp_readable)", "bool"),
+        "stack_memory.get_memory_at_address::<u8>(callee_frame.context.get_stack_pointer()).is_some()": ("sp_readable", "bool"),
+    }
+    for v in ("Scan", "CfiScan", "FramePointer", "CallFrameInfo", "PreWalked", "None"):
+        atoms["FrameTrust::" + v] = (v, "trustconst")
+    ps = TailParser(tokenize(m.group(1), what), atoms, what, 590)
+    stmts = ps.block({}, None)
+    out.append("(* lib.rs walk_stack: true = the loop is left before get_caller_frame is asked for a caller of this frame.\n"
+               "   callee_is_context = (callee_frame.trust == FrameTrust::Context),\n"
+               "   sp_readable = stack_memory.get_memory_at_address::<u8>(callee_frame.context.get_stack_pointer()).is_some() *)\n"
+               "Definition lib_walk_stop (callee_is_context sp_readable : bool) : bool :=\n%s.\n" % gen_stop(stmts, "  ", what))
+    # ---- amd64 resolve(): checked_add (F-C03f) or plain `+`
+    a = src["amd64"]
+    chk = [r"let frame_base = last_bp\.checked_add\(offset\)\?;",
+           r"stack_memory\.get_memory_at_address\(frame_base\.checked_add\(POINTER_WIDTH\)\?\)\?;",
+           r"let caller_sp = frame_base\.checked_add\(POINTER_WIDTH \* 2\)\?;"]
+    raw = [r"get_memory_at_address\(last_bp \+ offset \+ POINTER_WIDTH\)\?;",
+           r"get_memory_at_address\(last_bp \+ offset\)\?;",
+           r"let caller_sp = last_bp \+ offset \+ POINTER_WIDTH \* 2;"]
+    nchk = sum(len(re.findall(p_, a)) for p_ in chk)
+    nraw = sum(len(re.findall(p_, a)) for p_ in raw)
+    if nchk == 3 and nraw == 0:
+        out.append("Definition amd64_resolve_checked : bool := true.  (* resolve(): every address is formed with checked_add *)\n")
+    elif nchk == 0 and nraw == 3:
+        out.append("Definition amd64_resolve_checked : bool := false.  (* resolve(): plain `+` *)\n")
+    else:
+        die("amd64 resolve(): neither the checked_add form nor the plain `+` form")
+    return ("(* GENERATED by translate/unwind_consts.py from /repo/minidump-unwind/src/{x86,amd64,arm,arm64,mips,lib}.rs -- do not edit.\n"
+            "   The guard expressions at the end of every get_caller_frame, the stop guard of walk_stack and the arithmetic flavour of\n"
+            "   amd64's resolve(), re-emitted from the Rust text (statement by statement, operator by operator). *)\n"
+            "From RM Require Import Base.Word.\nOpen Scope Z_scope.\n\n" + "\n".join(out))
+
+
 def main():
     repo, outdir = sys.argv[1], sys.argv[2]
     ud = os.path.join(repo, "minidump-unwind", "src")
@@ -72,6 +477,13 @@ def main():
 
     out = []
     emit = lambda name, val, cmt="": out.append("Definition %s : Z := %d.%s" % (name, val, ("  (* %s *)" % cmt) if cmt else ""))
+    EDITED = "the source no longer has the statement this constant is read from: see Gen/UnwindTail.v; no arch_ok holds"
+
+    def emit_stop_le(key, m):
+        if m:
+            out.append("Definition %s_sp_stop_le : bool := %s.  (* end of stack when caller sp %s callee sp *)" % (key, "true" if m.group(1) == "<=" else "false", m.group(1)))
+        else:
+            out.append("Definition %s_sp_stop_le : bool := false.  (* %s *)" % (key, EDITED))
     emitl = lambda name, names: out.append("Definition %s : list Z := [%s].  (* %s *)" % (
         name, "; ".join(str(name_id(n)) for n in names), " ".join(names)))
 
@@ -142,12 +554,12 @@ def main():
         one(s, r"let scan_range = if let FrameTrust::Context = args\.callee_frame\.trust \{\s*extended_scan_range\s*\} else \{\s*default_scan_range\s*\};", key + " scan range choice")
         m = one(s, r"const MAX_REASONABLE_GAP_BETWEEN_FRAMES: Pointer = (\d+) \* (\d+);", key + " MAX_REASONABLE_GAP")
         emit(key + "_max_gap", int(m.group(1)) * int(m.group(2)))
-        m = one(s, r"if frame\.context\.get_instruction_pointer\(\) < (\d+) \{", key + " nullish cut-off")
-        emit(key + "_ip_cutoff", int(m.group(1)))
-        m = one(s, r"if frame\.context\.get_stack_pointer\(\) (<=|<) ctx\.[er]sp( as u64)? \{", key + " sp progress check")
-        out.append("Definition %s_sp_stop_le : bool := %s.  (* end of stack when caller sp %s callee sp *)" % (key, "true" if m.group(1) == "<=" else "false", m.group(1)))
-        m = one(s, r"frame\.instruction = ip - (\d+);", key + " call adjustment")
-        emit(key + "_adj", int(m.group(1)))
+        m = soft(s, r"if frame\.context\.get_instruction_pointer\(\) < (\d+) \{", key + " nullish cut-off")
+        emit(key + "_ip_cutoff", int(m.group(1)) if m else 0, "" if m else EDITED)
+        m = soft(s, r"if frame\.context\.get_stack_pointer\(\) (<=|<) ctx\.[er]sp( as u64)? \{", key + " sp progress check")
+        emit_stop_le(key, m)
+        m = soft(s, r"frame\.instruction = ip - (\d+);", key + " call adjustment")
+        emit(key + "_adj", int(m.group(1)) if m else 0, "" if m else EDITED)
     m = one(src["amd64"], r"Os::Windows => resolve\((\d+), (\d+) \* POINTER_WIDTH\)\?,\s*_ => resolve\((\d+), (\d+)\)\?,", "amd64 resolve calls")
     emit("amd64_win_scan_max", int(m.group(1)), "resolve(15, ..): offsets 0..=15")
     emit("amd64_win_scan_step_words", int(m.group(2)))
@@ -198,12 +610,12 @@ def main():
         emit(key + "_scan_default", int(m.group(1)))
         emit(key + "_scan_context", int(m.group(1)) * int(m.group(2)))
         one(s, r"let scan_range = if let FrameTrust::Context = args\.callee_frame\.trust \{\s*extended_scan_range\s*\} else \{\s*default_scan_range\s*\};", key + " scan range choice")
-        m = one(s, r"if frame\.context\.get_instruction_pointer\(\) < (\d+) \{", key + " nullish cut-off")
-        emit(key + "_ip_cutoff", int(m.group(1)))
-        m = one(s, r"if sp (<=|<) last_sp \{.*?let is_leaf = args\.callee_frame\.trust == FrameTrust::Context && sp == last_sp;\s*if !is_leaf \{", key + " sp progress / leaf check", re.S)
-        out.append("Definition %s_sp_stop_le : bool := %s.  (* end of stack when caller sp %s callee sp *)" % (key, "true" if m.group(1) == "<=" else "false", m.group(1)))
-        m = one(s, r"frame\.instruction = ip - (\d+);", key + " call adjustment")
-        emit(key + "_adj", int(m.group(1)))
+        m = soft(s, r"if frame\.context\.get_instruction_pointer\(\) < (\d+) \{", key + " nullish cut-off")
+        emit(key + "_ip_cutoff", int(m.group(1)) if m else 0, "" if m else EDITED)
+        m = soft(s, r"if sp (<=|<) last_sp \{.*?let is_leaf = args\.callee_frame\.trust == FrameTrust::Context && sp == last_sp;\s*if !is_leaf \{", key + " sp progress / leaf check", re.S)
+        emit_stop_le(key, m)
+        m = soft(s, r"frame\.instruction = ip - (\d+);", key + " call adjustment")
+        emit(key + "_adj", int(m.group(1)) if m else 0, "" if m else EDITED)
     one(src["arm"], r"if args\.system_info\.os != Os::Ios \{\s*return None;", "arm frame pointer: iOS only")
     m = one(src["arm64"], r"!\((0x[0-9a-fA-F]+)\.\.=(0x[0-9a-fA-F]+)\)\.contains\(&instruction\)", "arm64 is_non_canonical")
     emit("arm64_canon_lo", intlit(m.group(1)))
@@ -234,12 +646,12 @@ def main():
     one(s, r"let count = MAX_STACK_SIZE / POINTER_WIDTH;", "mips64 count")
     m = one(s, r"if instruction < (0x[0-9a-fA-F]+) \{\s*return false;", "mips instruction_seems_valid")
     emit("mips_instr_min", intlit(m.group(1)))
-    m = one(s, r"if frame\.context\.get_instruction_pointer\(\) < (\d+) \{", "mips nullish cut-off")
-    emit("mips_ip_cutoff", int(m.group(1)))
-    m = one(s, r"if sp (<=|<) last_sp \{.*?let is_leaf = args\.callee_frame\.trust == FrameTrust::Context && sp == last_sp;\s*if !is_leaf \{", "mips sp progress / leaf check", re.S)
-    out.append("Definition mips_sp_stop_le : bool := %s.  (* end of stack when caller sp %s callee sp *)" % ("true" if m.group(1) == "<=" else "false", m.group(1)))
-    m = one(s, r"frame\.instruction = ip - (\d+);", "mips call adjustment")
-    emit("mips_adj", int(m.group(1)))
+    m = soft(s, r"if frame\.context\.get_instruction_pointer\(\) < (\d+) \{", "mips nullish cut-off")
+    emit("mips_ip_cutoff", int(m.group(1)) if m else 0, "" if m else EDITED)
+    m = soft(s, r"if sp (<=|<) last_sp \{.*?let is_leaf = args\.callee_frame\.trust == FrameTrust::Context && sp == last_sp;\s*if !is_leaf \{", "mips sp progress / leaf check", re.S)
+    emit_stop_le("mips", m)
+    m = soft(s, r"frame\.instruction = ip - (\d+);", "mips call adjustment")
+    emit("mips_adj", int(m.group(1)) if m else 0, "" if m else EDITED)
 
     # ---- cascade order (cfi > frame pointer > scan) in every get_caller_frame
     for key in ("x86", "amd64", "arm", "arm64"):
@@ -254,15 +666,17 @@ def main():
     text = ("(* GENERATED by translate/unwind_consts.py from /repo/minidump-unwind/src/*.rs -- do not edit.\n"
             "   Register names are the big-endian base-256 value of their ASCII spelling. *)\n"
             "From Coq Require Import ZArith List.\nImport ListNotations.\nOpen Scope Z_scope.\n\n" + "\n".join(out) + "\n")
-    path = os.path.join(outdir, "UnwindConsts.v")
+    tail = tail_definitions(src, fmt, regw)
     os.makedirs(outdir, exist_ok=True)
-    try:
-        if open(path).read() == text:
-            return
-    except OSError:
-        pass
-    with open(path, "w") as f:
-        f.write(text)
+    for fname, body in (("UnwindConsts.v", text), ("UnwindTail.v", tail)):
+        path = os.path.join(outdir, fname)
+        try:
+            if open(path).read() == body:
+                continue
+        except OSError:
+            pass
+        with open(path, "w") as f:
+            f.write(body)
 
 
 if __name__ == "__main__":
